@@ -438,8 +438,8 @@ Write(e, data) ==
     /\ UNCHANGED <<wire, cl, sv, lh>>
 
 WriteMC(e, n) ==
-    /\ Len(ep[e].wr) + n <= MaxBytes
-    /\ Write(e, [i \in 1..n |-> ByteVal(e, Len(ep[e].wr) + i)])
+    /\ ep[e].nw + n <= MaxBytes
+    /\ Write(e, [i \in 1..n |-> ByteVal(e, ep[e].nw + i)])
 
 Read(e, n) ==
     /\ "read" \in Ops /\ e \in EPs /\ Handle(e).st = "held"
